@@ -99,7 +99,12 @@ def main(argv=None):
 
     if a.replay:
         rec = json.load(open(a.replay))
-        vs = mod.replay(core.unjson(rec["case"]), rec.get("scenario"), seed)
+        if isinstance(rec.get("case"), dict) and "unreplayable" in rec["case"]:
+            print("this violation was raised outside any oracle (%s); re-running the whole check instead" % rec["case"]["unreplayable"])
+            res = mod.run("quick", seed, a.jobs or None)
+            vs = [v for v, n in res.violations.values() if v["clause"] == rec.get("clause")]
+        else:
+            vs = mod.replay(core.unjson(rec["case"]), rec.get("scenario"), seed)
         for v in vs:
             print("  violated clause:", v["clause"], "| expected:", v["expected"], "| observed:", v["observed"], "| site:", v["site"])
             for line in v["trace"]:
